@@ -862,6 +862,31 @@ func c11DeadlineFreesLoop(kind string, k, extra, others int, closeToo bool) cwSc
 		fmt.Sprintf("read:%d", k), fmt.Sprintf("unread:%d", extra), fmt.Sprintf("others:%d", others), fmt.Sprintf("half-close:%v", closeToo)}}
 }
 
+// c11SecondOpener: a peer (goat's client never does) sends a SECOND stream-opening envelope for an id that is still
+// registered, after 0..2 messages; then a probe. Scripted client. The connection must survive: no registry lock held at
+// the end (reason 4), no wedge (reason 3).
+func c11SecondOpener(kind string, msgs int, read int, ret string) cwScenario {
+	m := "/verif.Echo/" + kind
+	s := []Step{{Op: "cli", M: m, Env: &EnvSpec{Call: 0, Hdr: "ok:0", Trl: "none"}}}
+	for i := 0; i < msgs; i++ {
+		s = append(s, Step{Op: "cli", M: m, Env: bodyEnv(0, int64(10+i))})
+		if i < read {
+			s = append(s, hop(0, HOp{Op: "recv"}))
+		}
+	}
+	s = append(s, Step{Op: "cli", M: m, Env: &EnvSpec{Call: 0, Hdr: "ok:0", Trl: "none"}})
+	if ret == "before-probe" {
+		s = append(s, hop(0, HOp{Op: "return", Ctx: true}))
+	}
+	s = append(s, Step{Op: "cli", M: "/verif.Echo/Unary", Env: &EnvSpec{Call: 1, Hdr: "ok:0", Body: i64(77), Trl: "none"}})
+	if ret == "after-probe" {
+		s = append(s, hop(0, HOp{Op: "return"}))
+	}
+	s = append(s, Step{Op: "cli", M: "/verif.Echo/Unary", Env: &EnvSpec{Call: 2, Hdr: "ok:0", Body: i64(78), Trl: "none"}})
+	return cwScenario{Mode: "server", Steps: s, Tags: []string{"c11", "peer:second-opener-on-a-live-id", "kind:" + kind, fmt.Sprintf("msgs:%d", msgs),
+		fmt.Sprintf("read:%d", read), "handler-returns:" + ret}}
+}
+
 // a peer that sends more than expected (client against a scripted peer)
 func c11OverSending(shape string, d int, probeDl bool) cwScenario {
 	var s []Step
@@ -1035,6 +1060,21 @@ func c11Scenarios(full bool) []cwScenario {
 			}
 		}
 	}
+	// a second opener for a live stream id (scripted client)
+	for _, kind := range []string{"Bidi", "CStream", "SStream"} {
+		for msgs := 0; msgs <= 2; msgs++ {
+			for _, ret := range []string{"never", "before-probe", "after-probe"} {
+				read := msgs
+				if msgs == 2 {
+					read = 1
+				}
+				if msgs == 2 && ret == "never" {
+					continue // the opener would wait behind the full queue of a live handler that is not reading: a legitimate hold
+				}
+				out = append(out, c11SecondOpener(kind, msgs, read, ret))
+			}
+		}
+	}
 	// surplus replies to one unary call in a burst; a hold of the server's read loop that ends at the handler's deadline
 	for n := 2; n <= 5; n++ {
 		for l := 0; l < 2; l++ {
@@ -1136,7 +1176,12 @@ func clientWord(w []int) (cwScenario, bool) {
 		case "expire":
 			s = append(s, Step{Op: "tick", D: 4000})
 		case "pbody":
-			s = append(s, Step{Op: "peer", Env: bodyEnv(0, int64((20+i)*((i+1)%2)))})
+			if (i+len(w))%3 == 2 {
+				// a response BODY that does not decode as the response type (bytes 0xff 0xff 0xff)
+				s = append(s, Step{Op: "peer", Env: bodyEnv(0, -1)})
+			} else {
+				s = append(s, Step{Op: "peer", Env: bodyEnv(0, int64((20+i)*((i+1)%2)))})
+			}
 		case "ptrailer":
 			s = append(s, Step{Op: "peer", Env: trlEnv(0, int64(5*(i%2)))})
 		case "unary":
